@@ -128,23 +128,22 @@ def div64Loop : Nat → DivSt → DivSt
   | 0, st => st
   | k + 1, st => div64Loop k (div64Step st)
 
-/-- numeric.js:118-177 `$div64`; `none` = `$throwRuntimeError("integer divide by zero")`. -/
+/-- numeric.js:126-134 (and 138-146 for y): the magnitude of a pair whose high word is negative:
+    `if (xHigh < 0) { xHigh = -xHigh; if (xLow !== 0) { xHigh--; xLow = 4294967296 - xLow; } }` -/
+def magnitude (h l : Int) : Int × Int :=
+  if h < 0 then (if l ≠ 0 then (-h - 1, 4294967296 - l) else (-h, l)) else (h, l)
+
+/-- numeric.js:118-177 `$div64`; `none` = `$throwRuntimeError("integer divide by zero")`.
+    `sg` is the variable `s` of the code (sign of the quotient), `rs` the sign of the remainder. -/
 def div64 (s : Bool) (x y : W64) (returnRemainder : Bool) : Option W64 :=
   if y.high = 0 ∧ y.low = 0 then none
   else
-    let xneg : Bool := decide (x.high < 0)
-    let sg : Int := if xneg then -1 else 1
-    let rs : Int := if xneg then -1 else 1
-    let xHigh0 := if xneg then -x.high else x.high
-    let xHigh := if xneg ∧ x.low ≠ 0 then xHigh0 - 1 else xHigh0
-    let xLow := if xneg ∧ x.low ≠ 0 then 4294967296 - x.low else x.low
-    let yneg : Bool := decide (y.high < 0)
-    let sg := if yneg then sg * -1 else sg
-    let yHigh0 := if yneg then -y.high else y.high
-    let yHigh := if yneg ∧ y.low ≠ 0 then yHigh0 - 1 else yHigh0
-    let yLow := if yneg ∧ y.low ≠ 0 then 4294967296 - y.low else y.low
-    let nr := div64Norm 64 xHigh xLow yHigh yLow 0
-    let st := div64Loop (nr.2.2.1 + 1) ⟨xHigh, xLow, nr.1, nr.2.1, 0, 0⟩
+    let rs : Int := if x.high < 0 then -1 else 1
+    let sg : Int := if y.high < 0 then rs * -1 else rs
+    let mx := magnitude x.high x.low
+    let my := magnitude y.high y.low
+    let nr := div64Norm 64 mx.1 mx.2 my.1 my.2 0
+    let st := div64Loop (nr.2.2.1 + 1) ⟨mx.1, mx.2, nr.1, nr.2.1, 0, 0⟩
     if returnRemainder then some (mk64 s (st.xHigh * rs) (st.xLow * rs))
     else some (mk64 s (st.high * sg) (st.low * sg))
 
